@@ -298,6 +298,11 @@ func body(c *sched.Ctl, cs Case, v *ev.Verdict) {
 	invalBetweenLookAndReturn, invalWhileHeld := false, false
 	repeatedValue, sentinelError, zeroValue := false, false, false
 	rootCancelled := false
+	type keptErr struct {
+		p   *error
+		was error
+	}
+	var keptErrs []keptErr // error pointers seen in the error container at earlier quiescent points
 	rootDead := map[int]bool{}
 	sharedDone := false // a SetContext replaced the context by a different value with the same Done channel
 	invOps := map[string]*sched.Op{}
@@ -322,6 +327,11 @@ func body(c *sched.Ctl, cs Case, v *ev.Verdict) {
 				fail("C09", "refcount:resolver-overlap", "the resolver was entered (call %d) while another resolver call is still running", ci.id)
 			}
 			if ci.tok == nil {
+				if m.liveRefs() == 0 {
+					// a value made for nobody: its release can only come "shortly after the last
+					// reference is dropped" if it is never made
+					fail("C08", "refcount:resolve-without-references", "the resolver was called although the container has no reference")
+				}
 				fail("C09", "refcount:unexpected-resolve", "the resolver was called by a goroutine the reference machine did not start")
 			}
 		}
@@ -562,6 +572,17 @@ func body(c *sched.Ctl, cs Case, v *ev.Verdict) {
 			if ge != m.targetErr {
 				fail("C09", "refcount:target-err", "%s: error container holds %v, the machine says %v", where, ge, m.targetErr)
 				return
+			}
+			// what the container handed out is the consumer's: the error behind an earlier pointer
+			// stays what it was when it was published
+			for _, k := range keptErrs {
+				if *k.p != k.was {
+					fail("C09", "refcount:target-err-changed", "%s: the error pointer published earlier read %v then and reads %v now", where, k.was, *k.p)
+					return
+				}
+			}
+			if got != nil && (len(keptErrs) == 0 || keptErrs[len(keptErrs)-1].p != got) && len(keptErrs) < 16 {
+				keptErrs = append(keptErrs, keptErr{got, *got})
 			}
 		}
 		for _, h := range hrefs {
